@@ -58,10 +58,8 @@ var c20step = []string{"s0", "s1", "s2", "s3", "s4", "s5"}
 func H_C20_clone() {
 	verifCapFork(true)
 	verifUnwind(40)
+	// quick: 5 steps on up to 3 statements; thorough: 5 steps on up to 4 statements (deeper nesting)
 	steps := 5
-	if verifTier() > 0 {
-		steps = 6
-	}
 	orig := &Statement{}
 	if nondetChoice("pregrown", 2) == 1 {
 		// spare capacity from the start: every append below happens in place
